@@ -9,6 +9,8 @@ What survives both -- compiles, passes the suite, no check objects -- is listed 
 equivalent mutant / outside every property, or a clause no rule decides yet.
 
 usage: tools/sweep.py [-j N] [--max M] [--seed S] [--out DIR] file...        (files relative to the repository root)
+       tools/sweep.py [-j N] --recheck RESULTS.json     (run today's checks again on the survivors of an earlier sweep; the
+                                                         build and the suite are not repeated; writes RESULTS.json back)
 """
 import json, os, random, re, shutil, subprocess, sys, tempfile
 from multiprocessing import Pool
@@ -104,6 +106,9 @@ def _worker_init():
 
 
 def run_one(job):
+    checks_only = False
+    if len(job) == 6:
+        job, checks_only = job[:5], True
     path, kind, lineno, new, props = job
     full = os.path.join(_scratch, path)
     orig = open(full).read()
@@ -126,6 +131,9 @@ def run_one(job):
         if 1 in verdicts.values():
             res["status"] = "reported"
             return res
+        if checks_only:
+            res["status"] = "broken-exit2" if 2 in verdicts.values() else "SURVIVOR"
+            return res
         b = subprocess.run(["make", "all"], cwd=_scratch, capture_output=True, text=True, timeout=900)
         if b.returncode != 0:
             res["status"] = "does-not-build"
@@ -141,16 +149,20 @@ def run_one(job):
         return res
     finally:
         open(full, "w").write(orig)
-        subprocess.run(["make", "all"], cwd=_scratch, capture_output=True, text=True)
+        if not checks_only:
+            subprocess.run(["make", "all"], cwd=_scratch, capture_output=True, text=True)
 
 
 def main():
     args = sys.argv[1:]
     j, mx, seed, out = 8, 30, 1, "/tmp/verif_sweep"
     files = []
+    recheck = None
     i = 0
     while i < len(args):
-        if args[i] == "-j":
+        if args[i] == "--recheck":
+            recheck = args[i + 1]; i += 2
+        elif args[i] == "-j":
             j = int(args[i + 1]); i += 2
         elif args[i] == "--max":
             mx = int(args[i + 1]); i += 2
@@ -160,6 +172,29 @@ def main():
             out = args[i + 1]; i += 2
         else:
             files.append(args[i]); i += 1
+    if recheck:
+        old = json.load(open(recheck))
+        keep = [r for r in old if r["status"] not in ("SURVIVOR", "broken-exit2")]
+        jobs = []
+        for r in old:
+            if r["status"] in ("SURVIVOR", "broken-exit2"):
+                src = open(os.path.join(REPO, r["file"])).read().split("\n")
+                ln = r["line"] - 1
+                if ln >= len(src) or src[ln].strip() != r["old"]:
+                    print("stale (source changed): %s:%d" % (r["file"], r["line"]))
+                    continue
+                new = src[ln][:len(src[ln]) - len(src[ln].lstrip())] + r["new"]
+                jobs.append((r["file"], r["kind"], ln, new, r["props"], True))
+        print("rechecking %d survivors" % len(jobs))
+        with Pool(j, initializer=_worker_init) as pool:
+            for r in pool.imap_unordered(run_one, jobs):
+                keep.append(r)
+                print("%-14s %s:%d [%s] %s  ->  %s   %s" % (r["status"], r["file"], r["line"], r["kind"], r["old"][:60], r["new"][:60], r.get("rule", "")), flush=True)
+        json.dump(keep, open(recheck, "w"), indent=1)
+        for d in os.listdir(tempfile.gettempdir()):
+            if d.startswith("lcp_sweep_"):
+                shutil.rmtree(os.path.join(tempfile.gettempdir(), d), ignore_errors=True)
+        return
     os.makedirs(out, exist_ok=True)
     rnd = random.Random(seed)
     jobs = []
